@@ -17,4 +17,6 @@ MCPathInfo ==
 MCSorted == SelectSeq(Master, LAMBDA p : p \in Paths)
 FileSettings == {[local |-> l, prefix |-> x, noformat |-> nf] : l \in {"", "loc/al"}, x \in {"", "pkg"}, nf \in BOOLEAN}
 FileSettingsSmall == {[local |-> "", prefix |-> "", noformat |-> TRUE], [local |-> "x/d", prefix |-> "pkg", noformat |-> TRUE]}
+CmtPoolSmall == {Cmt("ca")}
+CmtPoolSim == {Cmt("ca"), Cmt("cb"), CmtS("cc\ncd", "block")}
 =============================================================================
